@@ -2,7 +2,9 @@ package rules
 
 import (
 	"go/ast"
+	"go/parser"
 	"go/token"
+	"go/types"
 	"strings"
 
 	"dstverif/schema"
@@ -393,4 +395,25 @@ func paren(s string) string {
 		return "(" + s + ")"
 	}
 	return s
+}
+
+// splitTopAnd splits a condition into its top-level conjuncts.
+func splitTopAnd(s string) []string {
+	x, err := parser.ParseExpr(s)
+	if err != nil {
+		return []string{s}
+	}
+	var out []string
+	var walk func(e ast.Expr)
+	walk = func(e ast.Expr) {
+		e = ast.Unparen(e)
+		if be, ok := e.(*ast.BinaryExpr); ok && be.Op == token.LAND {
+			walk(be.X)
+			walk(be.Y)
+			return
+		}
+		out = append(out, types.ExprString(e))
+	}
+	walk(x)
+	return out
 }
